@@ -639,6 +639,39 @@ class Program:
         cache[clsqual] = {k: v for k, v in types.items() if k not in bad}
         return cache[clsqual]
 
+    def wrapper_of(self, finfo):
+        """(wrapper FunctionDef, name of the decorator's parameter) for a
+        function with exactly one decorator of the program that is a plain
+        `def deco(fn): def wrapper(...): ... fn(...) ...; return wrapper`
+        (functools.wraps allowed) and whose wrapper takes the function's own
+        parameter names."""
+        decs = [d for d in getattr(finfo.node, 'decorator_list', [])
+                if not (isinstance(d, ast.Name) and d.id in (
+                    'staticmethod', 'classmethod', 'property'))
+                and not (isinstance(d, ast.Attribute) and d.attr in (
+                    'abstractmethod', 'setter'))]
+        if len(decs) != 1 or not isinstance(decs[0], (ast.Name,
+                                                      ast.Attribute)):
+            return None
+        try:
+            q = self.resolve(finfo.module, decs[0])
+        except Exception:
+            return None
+        d = self.functions.get(q) if isinstance(q, str) else None
+        if d is None or len(d.params) != 1:
+            return None
+        inner = [n for n in d.node.body if isinstance(n, ast.FunctionDef)]
+        rets = [n for n in d.node.body if isinstance(n, ast.Return)]
+        if len(inner) != 1 or len(rets) != 1 or not (
+                isinstance(rets[0].value, ast.Name)
+                and rets[0].value.id == inner[0].name):
+            return None
+        w = inner[0]
+        wp = [a.arg for a in w.args.posonlyargs + w.args.args]
+        if wp != list(finfo.params) or w.args.vararg or w.args.kwarg:
+            return None
+        return w, d.params[0]
+
     def callee_of(self, finfo, call):
         """Resolve the callee of an ast.Call inside finfo -> FunctionInfo|None
         (package-internal only)."""
